@@ -15,7 +15,9 @@ package props
 //                  automaton started in the state phase A left.
 
 import (
+	"context"
 	"fmt"
+	"strings"
 	"sync"
 	"time"
 
@@ -303,4 +305,144 @@ func c16Lifecycle(c *lab.Ctx) {
 	wg.Wait()
 	c.Count("sessions-recreated", int64(sessionsRestarted))
 	c.Require("sessions recreated", sessionsRestarted > 50, fmt.Sprint(sessionsRestarted))
+	c16Shared(c)
+}
+
+// c16Shared: the conditions belong to the ADDRESS. Two clusters of the cluster manager hold the same four addresses; conditions are
+// set and cleared through whichever cluster's host object, one cluster loses addresses (RemoveClusterHosts) and gets them back
+// (AppendClusterHosts / UpdateClusterHosts), the other is re-pushed with fresh host objects but always keeps every address - so each
+// address has a holder at all times. After every step every host object of every cluster must show exactly the conditions the
+// model holds for its address, and Health() == (no condition set).
+func c16Shared(c *lab.Ctx) {
+	rng := c.Rand("shared")
+	cm := cluster.NewClusterManagerSingleton(nil, nil, nil)
+	conds := []api.HealthFlag{api.FAILED_ACTIVE_HC, api.FAILED_OUTLIER_CHECK, api.HealthFlag(0x04)}
+	nH := c.Pick(40, 300)
+	steps := 0
+	for hi := 0; hi < nH; hi++ {
+		if hi%c.NBatch != c.Batch {
+			continue
+		}
+		nameA, nameB := fmt.Sprintf("c16-sh-a-%d", hi), fmt.Sprintf("c16-sh-b-%d", hi)
+		var addrs []string
+		for i := 0; i < 4; i++ {
+			addrs = append(addrs, c16Host("sh").AddressString())
+		}
+		mk := func(as []string) []v2.Host {
+			var hs []v2.Host
+			for _, a := range as {
+				hs = append(hs, v2.Host{HostConfig: v2.HostConfig{Address: a, Hostname: a, Weight: 1}})
+			}
+			return hs
+		}
+		for _, n := range []string{nameA, nameB} {
+			if err := cm.AddOrUpdatePrimaryCluster(v2.Cluster{Name: n, LbType: v2.LB_ROUNDROBIN}); err != nil {
+				c.Inconclusive("add cluster: " + err.Error())
+			}
+			_ = cm.UpdateClusterHosts(n, mk(addrs))
+		}
+		model := map[string]api.HealthFlag{}
+		inA := map[string]bool{}
+		for _, a := range addrs {
+			inA[a] = true
+		}
+		hostOf := func(name, addr string) types.Host {
+			snap := cm.GetClusterSnapshot(context.Background(), name)
+			if snap == nil {
+				return nil
+			}
+			var out types.Host
+			snap.HostSet().Range(func(h types.Host) bool {
+				if h.AddressString() == addr {
+					out = h
+					return false
+				}
+				return true
+			})
+			return out
+		}
+		var hist []string
+		bad := false
+		for si := 0; si < 30 && !bad; si++ {
+			a := addrs[rng.Intn(len(addrs))]
+			op := ""
+			switch rng.Intn(8) {
+			case 0, 1, 2, 3: // set / clear through A (if it holds the address) or B
+				via := nameB
+				if inA[a] && rng.Bool() {
+					via = nameA
+				}
+				h := hostOf(via, a)
+				if h == nil {
+					continue
+				}
+				cd := conds[rng.Intn(len(conds))]
+				if rng.Bool() {
+					h.SetHealthFlag(cd)
+					model[a] |= cd
+					op = fmt.Sprintf("set(%#x via %s)", uint64(cd), via[7:8])
+				} else {
+					h.ClearHealthFlag(cd)
+					model[a] &^= cd
+					op = fmt.Sprintf("clear(%#x via %s)", uint64(cd), via[7:8])
+				}
+			case 4: // A loses the address
+				if !inA[a] {
+					continue
+				}
+				_ = cm.RemoveClusterHosts(nameA, []string{a})
+				inA[a] = false
+				op = "remove-from-a"
+			case 5: // A gets it back (append)
+				if inA[a] {
+					continue
+				}
+				_ = cm.AppendClusterHosts(nameA, mk([]string{a}))
+				inA[a] = true
+				op = "append-to-a"
+			case 6: // A is replaced by the full list again
+				_ = cm.UpdateClusterHosts(nameA, mk(addrs))
+				for _, x := range addrs {
+					inA[x] = true
+				}
+				op = "replace-a-full"
+			default: // B re-pushed with fresh host objects
+				_ = cm.UpdateClusterHosts(nameB, mk(addrs))
+				op = "repush-b"
+			}
+			hist = append(hist, op)
+			steps++
+			c.Eval(1)
+			for _, name := range []string{nameA, nameB} {
+				for _, x := range addrs {
+					if name == nameA && !inA[x] {
+						continue
+					}
+					h := hostOf(name, x)
+					if h == nil {
+						c.Violation("host-present", "C16/shared-address/host-missing/after="+op, fmt.Sprintf("history %v: cluster %s has no host %s", hist, name, x), nil)
+						bad = true
+						continue
+					}
+					if h.HealthFlag() != model[x] || h.Health() != (model[x] == 0) {
+						c.Violation("conditions-belong-to-the-address", "C16/shared-address/conditions-diverged/after="+strings.SplitN(op, "(", 2)[0],
+							fmt.Sprintf("two clusters hold the same addresses; history %v: seen through cluster %s the host %s carries conditions %#x (Health()=%v), the operations so far left %#x on that address", hist, name[7:8], x, uint64(h.HealthFlag()), h.Health(), uint64(model[x])),
+							map[string]interface{}{"history": hist})
+						bad = true
+					}
+				}
+			}
+		}
+		// leave the words clean
+		for _, x := range addrs {
+			if h := hostOf(nameB, x); h != nil {
+				for _, cd := range conds {
+					h.ClearHealthFlag(cd)
+				}
+			}
+		}
+		c.Distinct(fmt.Sprintf("shared|%s", lab.Hash(strings.Join(hist, ">"))))
+	}
+	c.Count("shared-address-steps", int64(steps))
+	c.Require("shared-address steps judged", steps > 100, fmt.Sprint(steps))
 }
